@@ -112,7 +112,8 @@ class TranscriptInterval(AbstractFeatureInterval):
             except LocationOverlapException:
                 self.cds = None
 
-            self._cds_frames = cds_frames
+            # the identifier is computed from frames: a CDS described by phases is the same content
+            self._cds_frames = [f.to_frame() if isinstance(f, CDSPhase) else f for f in cds_frames]
 
         else:
             self.cds = self._cds_frames = self._cds_start = self._cds_end = None
